@@ -343,6 +343,7 @@ func TestC05(t *testing.T) {
 	}
 	ev.RapidChecks(ev.Pick(3000, 150000))
 	ev.RapidSeed(5)
+	var early []gen.File
 	rapid.Check(t, func(rt *rapid.T) {
 		f := gen.Any(rt, gen.Opts{MaxICC: 20000})
 		ev.Eval(1)
@@ -353,10 +354,22 @@ func TestC05(t *testing.T) {
 		if ev.SampleN() < 5 {
 			ev.Sample(map[string]any{"desc": f.Desc, "notes": f.Notes, "bytes": len(f.Data), "head_hex": fmt.Sprintf("%x", f.Data[:min(48, len(f.Data))])})
 		}
+		if len(early) < 300 && len(f.Data) < 200000 {
+			early = append(early, f)
+		}
 		if k, w := check(f); k != "" {
 			ev.Fail(rt, "dims", k, w, Case{File: f})
 		}
 	})
+	// the first 300 files once more, after thousands of other loads (pools, caches and adaptive sizes have had
+	// time to fill, evict and grow)
+	for _, f := range early {
+		ev.Eval(1)
+		if k, w := checkLevel(f, false); k != "" {
+			ev.Violation("dims", k, "loaded again after many other files: "+w, Case{File: f})
+			break
+		}
+	}
 	ev.Set("decoder_confirmed", confirmed)
 	ev.Set("decoder_unconfirmed", unconfirmed)
 	if ev.Violations() > 0 {
